@@ -57,6 +57,9 @@ class _SystemRandomShim(object):
     def getrandbits(self, n):
         return H.keys.getrandbits(n)
 
+    def randrange(self, *a):
+        return H.keys.randrange(*a)
+
     def randint(self, a, b):
         return H.keys.randint(a, b)
 
